@@ -1400,6 +1400,15 @@ impl<'a> Machine<'a> {
                 self.count_jump(Some(pos), t);
             }
             Op::Divert(target, args) => {
+                // a divert through a variable goes where the variable's value points
+                let target = match self.globals.get(&target) {
+                    Some(Val::D(t)) => {
+                        self.events.insert("var_divert");
+                        t.clone()
+                    }
+                    Some(_) => return Err(format!("tried to divert through the variable {target}, which holds no divert target")),
+                    None => target,
+                };
                 let t = self.entry_of(&target)?;
                 let temps = self.bind_params(&target, &args)?;
                 for (k, v) in temps {
